@@ -20,5 +20,8 @@ def run(ctx):
     if os.path.exists(os.path.join(vlib.VERIF, "checks", "c12_timer.py")):
         c12_timer = importlib.import_module("c12_timer")
         cov["standard_round_timer"] = c12_timer.collect(ctx) or {}
+    # code -> spec direction: the repository's own tests run under the invariant monitor
+    import suitemon
+    cov.update(suitemon.run_suite(ctx, {"C12"}, kind="sm"))
     rc = ctx.finish("model_checking", extra_cov=cov)
     return mirrorcheck.conclude(rc, mismatches, inconcl)
